@@ -1,3 +1,187 @@
+import QmiModel.Model.Rpc
 import Drv.Common
-/-! stub driver for C01: replaced when the model is built -/
-def main : IO Unit := Drv.main' (fun (s : Unit) _ => (s, "bad-op")) ()
+import Std.Data.HashSet
+/-!
+Driver for the C01 model.
+
+Two services, one line each:
+
+* `run <cfg> <attrs> <acts>` — replay a history of model actions; answer `ok <results>` or `disabled <index>`.
+* `explore <cfg> <attrs> <threads>` — exhaustive exploration of the model for a small scenario given as
+  program-ordered threads (callers and a fault thread) interleaved with all internal actions; answers the sorted
+  set of reachable terminal outcome vectors (`v` value, `e` exception, `l` locked, `d` delivery error, `-` no
+  outcome: the call hangs or was never issued).  Used by the harness to validate the model against the outcome
+  vectors the real code produces under the deterministic scheduler (bounded exploration = validation of the
+  model, never a substitute for the theorems).
+
+`<cfg>` = three bits `lockCrash pickleEscapes oversizeReplyDropped`; `<attrs>` = `r:place:argsOk:resOk:resBig:crash,…`.
+-/
+open QmiModel.Rpc
+
+inductive TStep
+  | call (r : ReqId)        -- issue + send (blocking callers follow with `wait`)
+  | wait (r : ReqId)        -- blocks until the future of r is set
+  | act (a : Act)           -- an environment action
+  | joinW                   -- RpcObjectManager.stop: join the worker thread
+  | joinB | joinA           -- MessageRouter.stop: join the event-loop thread
+  | waitDisc                -- run_in_thread_wait(disconnect): until A's closeAll has been processed
+  deriving Repr
+
+structure Key where
+  flags : List Bool
+  phase : Phase
+  fifo : List ReqId
+  bSock : Sock
+  bQ : List Cb
+  aSock : Sock
+  aQ : List Cb
+  pendA : List ReqId
+  wireAB : List Msg
+  wireBA : List Msg
+  unsent : List ReqId
+  checked : List ReqId
+  res : List (Option Outcome)
+  progs : List (List Nat)     -- remaining length of each thread program
+  deriving BEq, Hashable
+
+def parseBool (s : String) : Bool := s == "1"
+
+def parseCfg (s : String) : Cfg :=
+  match s.toList with
+  | [a, b, c] => ⟨a == '1', b == '1', c == '1'⟩
+  | _ => Cfg.pinned
+
+def parseAttrs (s : String) : ReqId → Attr :=
+  let ents := (s.splitOn ",").filterMap fun e =>
+    match e.splitOn ":" with
+    | [r, p, a, b, c, d] =>
+      match r.toNat? with
+      | some rn => some (rn, (⟨if p == "loc" then .loc else .rem, parseBool a, parseBool b, parseBool c, parseBool d⟩ : Attr))
+      | none => none
+    | _ => none
+  fun r => match ents.find? (fun e => e.1 == r) with
+    | some e => e.2
+    | none => ⟨.loc, true, true, false, false⟩
+
+def parseOutcome : String → Option Outcome
+  | "value" => some .value | "exc" => some .exc | "locked" => some .locked | "deliveryErr" => some .deliveryErr
+  | _ => none
+
+def parseAct (w : String) : Option Act :=
+  match w.splitOn ":" with
+  | ["issue", r] => r.toNat?.map .issue
+  | ["send", r] => r.toNat?.map .send
+  | ["enq", r] => r.toNat?.map .enq
+  | ["finish", o] => (parseOutcome o).map .finish
+  | ["unregister"] => some .unregister | ["stop1"] => some .stop1 | ["stop2"] => some .stop2
+  | ["stopB"] => some .stopB | ["stopA"] => some .stopA | ["discA"] => some .discA
+  | ["loopA"] => some .loopA | ["loopExitA"] => some .loopExitA | ["recvA"] => some .recvA | ["eofA"] => some .eofA
+  | ["loopB"] => some .loopB | ["loopExitB"] => some .loopExitB | ["recvB"] => some .recvB | ["eofB"] => some .eofB
+  | ["pop"] => some .pop | ["drain"] => some .drain
+  | _ => none
+
+def parseTStep (w : String) : Option TStep :=
+  match w.splitOn ":" with
+  | ["call", r] => r.toNat?.map .call
+  | ["wait", r] => r.toNat?.map .wait
+  | ["joinW"] => some .joinW | ["joinB"] => some .joinB | ["joinA"] => some .joinA | ["waitDisc"] => some .waitDisc
+  | _ => (parseAct w).map .act
+
+def outChar : Option Outcome → String
+  | some .value => "v" | some .exc => "e" | some .locked => "l" | some .deliveryErr => "d" | none => "-"
+
+def resVec (s : State) (n : Nat) : String :=
+  String.join ((List.range n).map fun r => outChar (s.result r))
+
+/-- one thread step: `none` = blocked/disabled -/
+def tstep (cfg : Cfg) (attr : ReqId → Attr) (s : State) : TStep → Option State
+  | .call r => match step cfg attr s (.issue r) with
+    | some s1 => step cfg attr s1 (.send r)
+    | none => none
+  | .wait r => if (s.result r).isSome then some s else none
+  | .act a => step cfg attr s a
+  | .joinW => match s.phase with
+    | .drained => some s
+    | .crashed => some s
+    | _ => none
+  | .joinB => if s.bSock == .down then some s else none
+  | .joinA => if s.aSock == .down then some s else none
+  | .waitDisc => if s.connA then none else some s
+
+def internalActs (s : State) : List Act :=
+  [.loopA, .loopExitA, .recvA, .eofA, .loopB, .loopExitB, .recvB, .eofB, .pop, .drain,
+   .finish .value] ++ s.checked.map .enq
+
+def mkKey (s : State) (n : Nat) (progs : List (List TStep)) : Key :=
+  { flags := [s.registered, s.running, s.shutdown, s.bRouter, s.aRouter, s.connA, s.connB],
+    phase := s.phase, fifo := s.fifo, bSock := s.bSock, bQ := s.bQ, aSock := s.aSock, aQ := s.aQ, pendA := s.pendA,
+    wireAB := s.wireAB, wireBA := s.wireBA, unsent := s.unsent, checked := s.checked,
+    res := (List.range n).map s.result, progs := progs.map (fun p => [p.length]) }
+
+/-- the outcome the worker produces for request r is fixed by the scenario (`outs`), so `finish` is deterministic -/
+def finishAct (outs : List Outcome) (s : State) : Act :=
+  match s.phase with
+  | .busy r => .finish (outs.getD r .value)
+  | _ => .finish .value
+
+partial def explore (cfg : Cfg) (attr : ReqId → Attr) (n : Nat) (outs : List Outcome)
+    (todo : List (State × List (List TStep))) (seen : Std.HashSet Key) (term : Std.HashSet String)
+    (budget : Nat) : Std.HashSet String × Nat :=
+  match todo with
+  | [] => (term, seen.size)
+  | (s, progs) :: rest =>
+    if budget == 0 then (term.insert "BUDGET", seen.size) else
+    let k := mkKey s n progs
+    if seen.contains k then explore cfg attr n outs rest seen term budget else
+    let seen := seen.insert k
+    -- successors by internal actions
+    let acts := (internalActs s).map (fun a => match a with | .finish _ => finishAct outs s | a => a)
+    let succI := acts.filterMap (fun a => (step cfg attr s a).map (fun s' => (s', progs)))
+    -- successors by thread steps
+    let idxs := List.range progs.length
+    let succT := idxs.filterMap fun i =>
+      match progs[i]? with
+      | some (t :: ts) => (tstep cfg attr s t).map (fun s' => (s', progs.set i ts))
+      | _ => none
+    let succ := succI ++ succT
+    if succ.isEmpty then
+      explore cfg attr n outs rest seen (term.insert (resVec s n)) (budget - 1)
+    else
+      explore cfg attr n outs (succ ++ rest) seen term (budget - 1)
+
+def insertSorted (x : String) : List String → List String
+  | [] => [x]
+  | y :: ys => if x ≤ y then x :: y :: ys else y :: insertSorted x ys
+
+def sortStrings (l : List String) : List String := l.foldl (fun acc x => insertSorted x acc) []
+
+def stepLine (_ : Unit) (line : String) : Unit × String :=
+  match line.splitOn " " with
+  | "run" :: cfgS :: attrS :: acts =>
+    let cfg := parseCfg cfgS
+    let attr := parseAttrs attrS
+    let rec go (s : State) (i : Nat) : List String → String
+      | [] => s!"ok {resVec s 8} quiet={quietStr s}"
+      | w :: ws => match parseAct w with
+        | none => s!"bad-op {i}"
+        | some a => match step cfg attr s a with
+          | some s' => go s' (i + 1) ws
+          | none => s!"disabled {i}"
+    ((), go init 0 acts)
+  | ["explore", cfgS, attrS, nS, outS, thrS] =>
+    let cfg := parseCfg cfgS
+    let attr := parseAttrs attrS
+    let n := nS.toNat?.getD 0
+    let outs := (outS.splitOn ",").filterMap parseOutcome
+    let progsO := (thrS.splitOn "|").map fun t => (t.splitOn ",").filter (· ≠ "") |>.map parseTStep
+    if progsO.any (fun p => p.any Option.isNone) then ((), "bad-op") else
+    let progs := progsO.map (fun p => p.filterMap id)
+    let (term, states) := explore cfg attr n outs [(init, progs)] {} {} 2000000
+    ((), s!"{String.intercalate ";" (sortStrings term.toList)} states={states}")
+  | _ => ((), "bad-op")
+where
+  quietStr (s : State) : String :=
+    -- same decidable condition as Props.C01.quietB (kept textual here: the driver must not import proof files)
+    toString (s.unsent.isEmpty && s.checked.isEmpty)
+
+def main : IO Unit := Drv.main' stepLine ()
